@@ -378,6 +378,25 @@ Fixpoint wfb (e : oexpr) : bool :=
   | Diag l => forallb wfb l
   end.
 
+(* every divisor occurring in the evaluation of a leaf or in its returned adjoint is non-zero
+   (premise of the transfer theorems of C05/Transfer*.v; evaluated on every correspondence case) *)
+Definition nzb (a : T) : bool := negb (a =? nzero).
+Definition ldivb (l : leaf) : bool :=
+  match l with
+  | LSampling _ _ _ cv | LWSum _ _ _ cv | LFlatten _ _ cv | LUnflatten _ _ cv => nzb cv
+  | LPtInner _ pw _ _ | LPtInnerAdj _ pw _ _ => forallb nzb pw
+  | LPDeriv _ _ _ _ _ _ dx => nzb dx
+  | LGrad _ _ _ _ _ dxs | LDiv _ _ _ _ _ dxs | LLap _ _ _ _ dxs => forallb nzb dxs
+  | _ => true
+  end.
+Fixpoint divsb (e : oexpr) : bool :=
+  match e with
+  | Leaf l => ldivb l
+  | Sum a b | Comp a b => divsb a && divsb b
+  | LScal _ a | RScal a _ | LVec _ a | RVec a _ | FLVec _ _ a => divsb a
+  | Reduce l | Bcast l | Diag l => forallb divsb l
+  end.
+
 (* the unique adjoint w.r.t. the weights, built from the unweighted one:
    W_dom^-1 o B o W_ran  (variant switch of the recorded findings) *)
 Definition true_adjoint_of (wd wr : list T) (B : list T -> list T) (y : list T) : list T :=
